@@ -197,10 +197,8 @@ def make_plugin(filt=None, stop=None, color=False, unprocessed=True):
     out, err = stream.String(), stream.String()
     o = Output(False, unprocessed, out, err)
     cm = ConnectionManager()
-    if isinstance(filt, str):
-        filt = matcher.parse(filt).simplify()
-    if isinstance(stop, str):
-        stop = matcher.parse(stop).simplify()
+    if isinstance(filt, str) or isinstance(stop, str):
+        filt, stop = sut.matchers_from_command_line(filt, stop, color)
     ctl = Controller(o, cm, filt if filt is not None else matcher.always, stop if stop is not None else matcher.never)
     pl = plugin.Plugin(o, cm, ctl, ctl)
     bps = {}
